@@ -306,7 +306,8 @@ class Popen(AgentExecutingComponent):
 
         # now that the task cancellation cb would succeed, let's make sure that
         # no cancellation request sneaked in before the task got started
-        if self.is_canceled(task) is True:
+        # (`cancel_task` hands the task on, so we don't advance it here)
+        if self.is_canceled(task, advance=False) is True:
             self.cancel_task(task)
 
 
